@@ -78,7 +78,7 @@ PROPS = {
         "not_decided": "bit-for-bit equality of state (follows from 'no effect ran' only given that effect-free code is effect-free, which the effect closure establishes for this crate); partial effects of the compound operations create_storage_all/remove_storage_all when a later step is refused by a callee",
     },
     "C11": {
-        "rules": [rules_sink.sink("mutation"), rules_sink.qual_rule("mutation"), rules_sink.term("mutation"), rules_sink.alloc("mutation"), rules_guard.make("R-INV"), rules_own.make("C11"), rules_follow.make("R-CTOR", "C11"), rules_struct.freelist, rules_entry.slotreset("C11"), rules_struct.chainpos("C11"), rules_lock.reacquire("C11"), rules_struct.nameinv("C11"), rules_struct.detach("C11"), rules_units.units("C11"), rules_struct.parenttype("C11"), rules_struct.wholetable("C11"), rules_struct.handlekind("C11")],
+        "rules": [rules_sink.sink("mutation"), rules_sink.qual_rule("mutation"), rules_sink.term("mutation"), rules_sink.alloc("mutation"), rules_guard.make("R-INV"), rules_own.make("C11"), rules_follow.make("R-CTOR", "C11"), rules_struct.freelist, rules_entry.slotreset("C11"), rules_struct.chainpos("C11"), rules_lock.reacquire("C11"), rules_struct.nameinv("C11"), rules_struct.lenbound("C11"), rules_struct.detach("C11"), rules_units.units("C11"), rules_struct.parenttype("C11"), rules_struct.wholetable("C11"), rules_struct.handlekind("C11")],
         "explanation": "Same engine as C05 on the mutation surface (every public method, dev profile so that debug assertions and overflow checks count as panics): R-TERM, R-SINK, R-QUAL, R-ALLOC, R-INV, R-CTOR, R-OWN. "
                        "Fields no validator covers (DirEntry.start_sector / stream_len, special FAT values) must reach index sites and raw walks only through the checked accessors or a dominating chain validation; the audit of the sink table found and led to repairs of five panics on damaged-but-accepted files, and records two more as known findings.",
         "not_decided": "as C05; behaviour of several handles on one stream (recorded as a known finding); resource exhaustion by caller-chosen sizes (set_len near u64::MAX)",
